@@ -39,7 +39,7 @@ def run(rep, tier, seed, budget):
     total = budget or (85 if quick else 1200)
     t_end = time.time() + total
     api = make_api(ctx)
-    MENU = ["set_preset", "set_dict", "set_invalid", "decode", "encode", "alphabet_mutate", "mutate_passed", "get_mutate", "preset_mutate"]
+    MENU = ["set_preset", "set_dict", "set_invalid", "decode", "encode", "alphabet_mutate", "mutate_passed", "get_mutate", "preset_mutate", "edit_and_reset"]
 
     def level(K, N):
         def path(eng, col):
